@@ -24,6 +24,10 @@ def dim_candidates(n, rich=True):
     tens = [[0], [n - 1, 0] if n > 1 else [0], list(range(n))[::-1], [0, 0] if n > 0 else [0], [-1, 0] if n > 1 else [-1]]
     if n > 2:
         tens.append([2, 0, 1])
+        # contiguous value range but permuted / repeated (a min..max shortcut would accept them)
+        tens += [[0, 0, 2], [0, 1, 1], [1, 0, 2]]
+    if n > 3:
+        tens.append([0, 2, 1, 3])
     for t in tens:
         if ["t", t] not in out:
             out.append(["t", t])
